@@ -69,10 +69,12 @@ def form_inputs(mats, bsel, form):
     M, B, K = mats
     n = M.shape[0]
     nb = len(bsel)
-    if form == "drm":
+    if form in ("drm", "drm-m1d"):
         T = np.zeros((nb, n))
         for j, d in enumerate(bsel):
             T[j, d] = 1.0
+        if form == "drm-m1d":  # lumped mass handed over as the vector of its diagonal, b and k 2-D
+            return [np.diag(M).copy(), B, K, T]
         return [M, B, K, T]
     kind, trunc = form
     nq = n - nb
@@ -102,7 +104,7 @@ def form_inputs(mats, bsel, form):
     return [Mcb, Bcb, Kcb, np.array(bpos)]
 
 
-FORMS = ["drm", ("bfirst", False), ("blast", False), ("inter", False), ("bsorted", False), ("bfirst", True)]
+FORMS = ["drm", "drm-m1d", ("bfirst", False), ("blast", False), ("inter", False), ("bsorted", False), ("bfirst", True)]
 
 
 def fname(f):
@@ -194,6 +196,27 @@ def check_pair(sname, lname, damp, nb, res):
                                 r = frclim.ntfl(sam, lam_, As, freq)  # precomputed apparent masses (documented alternative)
                                 if not (np.array_equal(sam, s0) and np.array_equal(lam_, l0)):
                                     msgs.append((case, "ntfl modified the apparent-mass arrays it was given", "mutate"))
+                                if k == 1 and fs_ == "drm":
+                                    # the same arrays in every memory layout (all 6 axis storage orders), each used for TWO
+                                    # calls: nothing is modified, both calls agree with the C-ordered call, TAM = SAM + LAM
+                                    for p in itertools.permutations(range(3)):
+                                        inv = np.argsort(p)
+                                        sv = np.ascontiguousarray(s0.transpose(p)).transpose(inv)
+                                        lv = np.ascontiguousarray(l0.transpose(p)).transpose(inv)
+                                        for rep in (1, 2):
+                                            rr = frclim.ntfl(sv, lv, As, freq)
+                                            ok_in = np.array_equal(sv, s0) and np.array_equal(lv, l0)
+                                            def _close(X, Y):  # per frequency, relative to the largest entry, graded like the main comparison
+                                                ax = tuple(i for i in range(X.ndim) if i != 1)
+                                                return bool(np.all(np.abs(X - Y).max(axis=ax) <= tolv * np.maximum(np.abs(Y).max(axis=ax), 1e-300)))
+                                            ok_out = _close(rr.A, r.A) and _close(rr.F, r.F) and _close(rr.TAM, s0 + l0)
+                                            if not (ok_in and ok_out):
+                                                msgs.append((case, "ntfl with precomputed apparent masses stored in axis order %s, call #%d: %s"
+                                                             % (list(p), rep, "the caller's arrays were modified" if not ok_in else "A / F / TAM differ from the C-ordered call"), "layout"))
+                                                break
+                                        else:
+                                            continue
+                                        break
                     except Exception as e:  # noqa
                         msgs.append((case, "ntfl raised %r" % (e,), "raise"))
                         break
